@@ -302,6 +302,58 @@ def rule_seqlock(rep, fs):
     return n
 
 
+def rule_first_update_rechecks(rep, fs):
+    """R5: the 'first leaf' record is lowered optimistically: read a snapshot, and while the own offset is smaller than the snapshot's, try to
+    publish; a failed attempt means another thread changed the record, so the WHOLE snapshot has to be read again and the minimality test
+    repeated -- a thread that only refreshes the version would overwrite a smaller first leaf installed concurrently (iteration and size()
+    would skip the smallest keys).  Per call site of tryUpdateFirstInfo(X): it sits in a loop whose condition tests X.offset and does not
+    contain the attempt itself, and inside that loop X is re-assigned as a whole from getFirstInfo()."""
+    n = 0
+    for f in fs:
+        if f.d.get('cls') != 'SparseArray' or f.name in ('tryUpdateFirstInfo',):
+            continue
+        for c in f.calls('tryUpdateFirstInfo'):
+            n += 1
+            x = strip(call_args(c)[0], casts=True)
+            det = ''
+            if x['k'] != 'DeclRefExpr':
+                det = 'the published snapshot is not a local variable'
+            loop = None
+            if not det:
+                for a in f.ancestors(c):
+                    if a['k'] in ('WhileStmt', 'DoStmt', 'ForStmt'):
+                        loop = a
+                        break
+                if loop is None:
+                    det = 'a failed attempt to lower the first-leaf record is not retried'
+            if not det:
+                if loop['k'] == 'WhileStmt':
+                    cond = kids(loop)[0] if len(kids(loop)) == 2 else kids(loop)[-2]
+                elif loop['k'] == 'DoStmt':
+                    cond = kids(loop)[-1]
+                else:
+                    cond = kids(loop)[2] if len(kids(loop)) > 2 else None
+                cond_nodes = list(walk(cond)) if cond is not None else []
+                if any(m is c or m.get('id') == c['id'] for m in cond_nodes):
+                    det = 'the attempt is retried without repeating the minimality test (the loop condition is the attempt itself)'
+                elif not any(m['k'] == 'MemberExpr' and m.get('member') == 'offset' and kids(m) and strip(kids(m)[0], casts=True).get('did') == x.get('did')
+                             for m in cond_nodes):
+                    det = 'the retry loop does not test the snapshot\'s offset again'
+            if not det:
+                re = []
+                for m in walk(loop):
+                    if (m['k'] == 'BinaryOperator' and m.get('op') == '=') or (m['k'] == 'CXXOperatorCallExpr' and m.get('op') == '='):
+                        ops = kids(m)[1:] if m['k'] == 'CXXOperatorCallExpr' else kids(m)
+                        lhs, rhs = strip(ops[0], casts=True), strip(ops[1], casts=True)
+                        if lhs['k'] == 'DeclRefExpr' and lhs.get('did') == x.get('did') and is_call(rhs, 'getFirstInfo'):
+                            re.append(m)
+                if not re:
+                    det = 'after a failed attempt the snapshot is not read again as a whole (node, offset and version) from getFirstInfo()'
+            rep.ob('R5-first-leaf-update-rechecks-after-failure', '%s#%d' % (tag(f), len([1 for o in rep.obligations if o['rule'] == 'R5-first-leaf-update-rechecks-after-failure' and o['instance'].startswith(tag(f) + '#')])),
+                   not det, f.loc(c), det)
+    return n
+
+
 MUTANTS = [
     ('bitmap-load-decides', '''            if (!val.compare_exchange_strong(old, old | bit, order, order)) continue;
 
@@ -355,6 +407,13 @@ MUTANTS = [
                 } else {''', '''                    // some other thread was faster => use updated next
                     next = newNext;
                 } else {''', 'R1'),
+    ('first-update-refreshes-version-only', '''                    if (!tryUpdateFirstInfo(firstInfo)) {
+                        // there was some concurrent update => check again
+                        firstInfo = getFirstInfo();
+                    }''', '''                    if (!tryUpdateFirstInfo(firstInfo)) {
+                        // there was some concurrent update => check again
+                        firstInfo.version = getFirstInfo().version;
+                    }''', 'R5'),
 ]
 
 
@@ -365,6 +424,7 @@ def analyse(rep):
     rep.floor('R1-cas-sites', rule_publish_by_cas(rep, fs), 3)
     rep.floor('R2-set-instances', rule_test_and_set(rep, fs), 1)
     rep.floor('R3R4-functions', rule_seqlock(rep, fs), 5)
+    rep.floor('R5-first-update-sites', rule_first_update_rechecks(rep, fs), 2)
 
 
 def run(tier='quick'):
@@ -372,7 +432,8 @@ def run(tier='quick'):
     rep.explanation = ('static analysis of Brie.h (SparseArray, SparseBitMap, Trie): atomic-access inventory and CFG dominance rules for the '
                        'lazy publication of child nodes (CAS from the loaded null value, loser frees, winner adopted), the atomic test-and-set of '
                        'leaf bits (true only from the operation that set the bit; both source idioms accepted), the statement order of the '
-                       'version-pointer seqlock publishers/readers, and raiseLevel publishing only through tryUpdateRootInfo.')
+                       'version-pointer seqlock publishers/readers, raiseLevel publishing only through tryUpdateRootInfo, and the retry discipline of the '
+                       'first-leaf record (whole snapshot re-read and minimality re-tested after a failed attempt).')
     rep.assumptions = ['64-bit loads/stores of the volatile synced record are atomic (the source\'s own assumption); memory-order obligations for the '
                        '__sync seqlock are checked as statement order only',
                        'Trie::insert uses compare_exchange_weak outside a loop: recorded as cross-reference, not armed (no spurious failure on x86-64)',
@@ -380,7 +441,7 @@ def run(tier='quick'):
     try:
         analyse(rep)
         ms = [mutate.Mutant(n, HDR, o, w, e) for (n, o, w, e) in MUTANTS]
-        mutate.run_mutants(rep, 'C27', ms if tier == 'thorough' else ms[:2], analyse)
+        mutate.run_mutants(rep, 'C27', ms if tier == 'thorough' else ms[:2] + ms[-1:], analyse)
     except facts.Broken as e:
         rep.analysis_broken(str(e))
     return rep.finish()
